@@ -235,6 +235,12 @@ func cmdCheck(args []string) int {
 			knownOpen[k.Obligation] = k
 		}
 	}
+	ledgerFn := map[string]bool{} // functions with at least one obligation discharged on the reference tree
+	for n := range ledger {
+		if i := strings.Index(n, "#"); i >= 0 {
+			ledgerFn[n[:i]] = true
+		}
+	}
 	ledgerClass := map[string]bool{}
 	for n := range ledger {
 		ledgerClass[classOfName(n)] = true
@@ -288,6 +294,12 @@ func cmdCheck(args []string) int {
 			default:
 				inLedger = id == "C17"
 			}
+		}
+		if !inLedger && id == "C17" && (r.o.Kind == "panic-call" || r.o.Kind == "pre") && ledgerFn[fnOfName(name)] {
+			// C17 is totality per entry point: this function was proved panic-free on the reference tree (every safety
+			// obligation it generated is in the ledger); a new reachable panic or a new unproved precondition of a
+			// callee in it means "F is total" passed on the reference tree and fails now
+			inLedger = true
 		}
 		if inLedger || *update {
 			path := writeReplay(id, name, r)
@@ -564,6 +576,13 @@ func cmdReplay(args []string) int {
 func cmdSelftest(args []string) int { return 2 }
 
 // classOfName strips the instance ordinal: obligations of one contract clause / one safety kind of one function.
+func fnOfName(n string) string {
+	if i := strings.Index(n, "#"); i >= 0 {
+		return n[:i]
+	}
+	return n
+}
+
 func classOfName(n string) string {
 	if i := strings.LastIndex(n, "/"); i >= 0 {
 		return n[:i]
